@@ -956,6 +956,7 @@ fn copy_file(
             })?;
         // Large files are split into chunks, loop until all chunks are transferred.
         let mut chunk_offset: u64 = 0;
+        let mut size_exceeded = false;
         loop {
             // Add progress markers during copies of large files, so we can see the progress (in bytes)
             ctx.send_progress_marker_limited(progress)?;
@@ -973,6 +974,9 @@ fn copy_file(
                 // We'll check the expected vs. actual size of the file anyway after this loop,
                 // but this will catch issues earlier, so we don't spend ages copying a big file
                 // only to report the error afterwards anyway.
+                // Remember that this happened, because chunk_offset might be equal to size at this point
+                // (if the file grew by a whole number of chunks), which the check below wouldn't catch.
+                size_exceeded = true;
                 break;
             }
 
@@ -997,7 +1001,7 @@ fn copy_file(
             }
         }
 
-        if chunk_offset != size {
+        if size_exceeded || chunk_offset != size {
             // The file has changed size since the querying phase. This will cause problems for boss_progress
             // because of asserts/assumptions it makes about work sent vs. completed, but also might indicate
             // something fishy is going on and so we err on the side of caution and raise an error.
